@@ -251,4 +251,50 @@ theorem loop_books {c : Cfg} {Inv : Nat → List PM → List PM → List PM → 
 
 end
 
+/-- the lists after `process_waiters`, without the counting -/
+theorem pw_shape (c : Cfg) (m : M) (a : Nat) (s : Stat) :
+    ∃ added, (processWaiters c m a s).active = m.active ++ added ∧
+      (processWaiters c m a s).delayed = m.delayed ∧ (processWaiters c m a s).st = m.st ∧
+      (processWaiters c m a s).waiting = keepF c a s m.waiting ∧
+      (∀ j ∈ added, s = .on ∧ ((j ∈ m.waiting ∧ parentOf c j.plug = some a) ∨
+        (∃ w ∈ m.waiting, a ∈ ancUp c w.plug ∧ parentOf c w.plug ≠ some a ∧ j = query (childOf c w.plug a)))) := by
+  rw [processWaiters_eq']
+  by_cases hs : s = .on
+  · subst hs
+    simp only [ne_eq, not_true_eq_false, if_false]
+    obtain ⟨qs, e, hq1, _⟩ := pass2_fold c a (keepF c a .on m.waiting) (afterPass1 c m a .on)
+    rw [e]
+    refine ⟨movedF c a .on m.waiting ++ qs, by simp [afterPass1], rfl, rfl, rfl, ?_⟩
+    intro j hj
+    refine ⟨trivial, ?_⟩
+    rcases List.mem_append.1 hj with hj | hj
+    · have := mem_movedF_on.1 hj; exact Or.inl ⟨this.1, this.2.2⟩
+    · obtain ⟨w, hwk, hd, rfl⟩ := hq1 j hj
+      have := mem_keepF_on.1 hwk
+      exact Or.inr ⟨w, this.1, isDesc_iff.1 hd, this.2 (isDesc_iff.1 hd), rfl⟩
+  · simp only [hs, ne_eq, not_false_eq_true, if_true]
+    have hmv : movedF c a s m.waiting = [] := by simp [movedF, hs]
+    exact ⟨[], by simp [afterPass1, hmv], rfl, rfl, rfl, by simp⟩
+
+section
+variable {α : Type} [DecidableEq α] (lab : Nat → α) (ll : Line → α)
+
+/-- the invariant survives the whole loop -/
+theorem loop_inv {c : Cfg} {Inv : Nat → List PM → List PM → List PM → M → Prop} (J : Justifies lab ll c Inv) :
+    ∀ (f d : Nat) (m : M),
+    Inv d [] (m.active ++ m.delayed) [] { m with active := m.active ++ m.delayed, delayed := [] } →
+    ∃ d', Inv d' [] ((runLoop c f m).active ++ (runLoop c f m).delayed) []
+      { runLoop c f m with active := (runLoop c f m).active ++ (runLoop c f m).delayed, delayed := [] } := by
+  intro f
+  induction f with
+  | zero => intro d m h; exact ⟨d, h⟩
+  | succ f ih =>
+    intro d m h
+    rw [runLoop_succ]
+    split
+    · exact ⟨d, h⟩
+    · exact ih (d + 1) _ (round_books lab ll J (ll (.ok 0)) d m h).1
+
+end
+
 end Pm.Redfish
